@@ -2,6 +2,9 @@
 pub mod gens;
 pub mod streams;
 pub mod conn;
+pub mod teardown;
+pub mod peer;
+pub mod keepalive;
 
 use vf_common::{Ctx, Report};
 
@@ -13,8 +16,11 @@ pub fn dispatch(ctx: &Ctx, rep: &mut Report) -> bool {
         "C05" => streams::c05(ctx, rep),
         "C06" => conn::c06(ctx, rep),
         "C07" => conn::c07(ctx, rep),
+        "C08" => teardown::c08(ctx, rep),
+        "C10" => peer::c10(ctx, rep),
         "C11" => conn::c11(ctx, rep),
         "C15" => conn::c15(ctx, rep),
+        "C16" => keepalive::c16(ctx, rep),
         _ => return false,
     }
     true
